@@ -210,12 +210,16 @@ func execute(t *testing.T, c Case) (kind, detail string) {
 	return
 }
 
-func cases() []Case {
+func cases(thorough bool) []Case {
 	var out []Case
+	sts, goods := []int{1, 3}, []int{1, 2}
+	if thorough {
+		sts, goods = []int{1, 2, 3, 8}, []int{1, 2, 4}
+	}
 	for _, ep := range []string{"socket", "socket+tls", "packet", "dns", "http"} {
 		for _, st := range stallPoints(ep) {
-			for _, stallers := range []int{1, 3} {
-				for _, good := range []int{1, 2} {
+			for _, stallers := range sts {
+				for _, good := range goods {
 					out = append(out, Case{ep, st, stallers, good})
 				}
 			}
@@ -244,7 +248,7 @@ func TestCheck(t *testing.T) {
 		record(r, c, kind, detail)
 		return
 	}
-	all := cases()
+	all := cases(r.Thorough())
 	for idx, c := range all {
 		if !r.Mine(idx) {
 			continue
